@@ -66,6 +66,13 @@ def genOps3 : List (String × R String) := [
       let sh := fun (t : Py.PyTok) => match t with
         | Py.PyTok.name n => "o:" ++ n | Py.PyTok.int n => "i:" ++ toString n | Py.PyTok.data d => "d:" ++ hex d
       pure (ans (fun (ts : List Py.PyTok) => " ".intercalate (toString ts.length :: ts.map sh)) (Gen.script_from_raw Gen.CODE_OPS b seg))),
+  ("g:tapbranch", do let a ← bytes; let b ← bytes; pure (ans hex (Gen.tapbranch_tagged_hash Crypto.sha256 a b))),
+  ("g:tapleaf", do
+      let ts ← toks
+      let py := ts.map fun t => match t with
+        | Spec.Tok.op n => Py.PyTok.name n | Spec.Tok.int n => Py.PyTok.int n | Spec.Tok.data d => Py.PyTok.data d
+      pure (ans hex (Gen.tapleaf_tagged_hash Crypto.sha256 Gen.OP_CODES py))),
+  ("g:msg_prefix", do let m ← bytes; pure (ans hex (Gen.add_magic_prefix m))),
   ("g:rmd", do let b ← bytes; pure (ans hex (Gen.rmd_ripemd160 b))),
   ("g:schnorr_sign", do let m ← bytes; let k ← bytes; let a ← bytes; pure (ans hex (Gen.schnorr_sign Crypto.sha256 m k a))),
   ("g:schnorr_verify", do let m ← bytes; let k ← bytes; let s ← bytes; pure (ans (fun (b : Bool) => if b then "1" else "0") (Gen.schnorr_verify Crypto.sha256 m k s))),
